@@ -1,5 +1,5 @@
 #!/bin/bash
-# selftest.sh [filter]: must-fail corpus. Each mutant (selftest/mutants/*.patch with its property in INDEX.txt, and
+# selftest.sh [filter]: must-fail corpus, then must-pass corpus (harmless refactorings). Each mutant (selftest/mutants/*.patch with its property in INDEX.txt, and
 # seeded/<name>/patch.diff with meta.json) is applied to a scratch worktree of /repo HEAD under $TMPDIR, the
 # property's check is run against that copy and must exit 1; the unchanged copy must exit 0. Nothing is kept.
 export GOFLAGS=-mod=mod GOPROXY=off GOSUMDB=off GOTOOLCHAIN=local
@@ -22,5 +22,19 @@ run() { # name prop patch
 }
 while read name prop; do [ -n "$name" ] && run "$name" "$prop" /verif/selftest/mutants/$name.patch; done < /verif/selftest/mutants/INDEX.txt
 for d in /verif/seeded/*/; do name=$(basename $d); prop=$(python3 -c "import json;print(json.load(open('$d/meta.json'))['property'])"); run "seeded-$name" "$prop" $d/patch.diff; done
-echo "selftest: $n mutants run, missed=$fail"
+# must-pass corpus: behaviour-preserving refactorings (selftest/harmless); every listed check must stay quiet
+runok() { # name patch checks...
+  name=$1; patch=$2; shift 2
+  echo "$name" | grep -Eq "$filter" || return
+  if ! git -C $wt apply --check $patch 2>/dev/null; then echo "SKIP  $name: patch does not apply to HEAD"; return; fi
+  git -C $wt apply $patch
+  for prop in "$@"; do
+    VERIF_REPO_DIR=$wt VERIF_OUT_DIR=$out /verif/bin/govc check $prop --tier quick > $tmp/log 2>&1; rc=$?
+    n=$((n+1))
+    if [ $rc -eq 0 ]; then echo "QUIET  $name ($prop)"; else echo "FALSE-ALARM $name ($prop): exit $rc: $(grep '^VIOLATION' $tmp/log | head -1 | sed 's/.*obligation=//' | cut -c1-100)"; fail=1; fi
+  done
+  git -C $wt checkout -q -- . ; git -C $wt clean -fdq
+}
+while read name rest; do [ -n "$name" ] && runok "$name" /verif/selftest/harmless/$name.patch ${rest%%#*}; done < /verif/selftest/harmless/INDEX.txt
+echo "selftest: $n runs, failures=$fail"
 exit $fail
